@@ -9,6 +9,9 @@ the byte of the newest chunk covering it (0 where none does).
   * append answered 2xx ⇒ content = old content ++ body.
   * a request whose body fails part-way is answered with an error status and leaves the file as it was;
     any request answered with an error status leaves the file as it was.
+  * the same holds when the cluster behind the filer fails: a request during which the upload of one of its
+    chunks is refused for good is either answered 2xx — then the content is the body (old content ++ body) like
+    for any accepted request — or answered with an error status and the file is what it was (`uploadFailJudge`).
 
 The judge is the executable form, run by the driver over the IMPLEMENTATION's outputs.
 -/
@@ -75,5 +78,27 @@ def writeJudge (q : Req) (prev : Option Entry) (status : Nat) (now : Option Entr
         if contentOf e = contentOf p ++ q.body then none
         else if extent p.chunks ≠ p.fileSize ∧ p.content = [] then some "saveMetaData/append-offset-from-FileSize-attr"
         else some "append/not-contiguous"
+
+/-- the content the property promises after an ACCEPTED request: the body, or for an append to an existing file
+    the old content followed by the body -/
+def wantedContent (q : Req) (prev : Option Entry) : List Nat :=
+  match (if q.isAppend then prev else none) with
+  | none => q.body
+  | some p => contentOf p ++ q.body
+
+/-- judge of one write request with an error-free body during which the master / volume server refused every
+    attempt to store one of the request's chunks (`q.failAt` is not looked at).  From the property text alone:
+    "stores exactly the bytes of the request body" — answered 2xx ⇒ the stored content is the promised one; a
+    2xx answer over anything else means the failed chunk upload was committed as if it had succeeded.  Answered
+    with an error ⇒ nothing was committed: the file (if any) is what it was. -/
+def uploadFailJudge (q : Req) (prev : Option Entry) (status : Nat) (now : Option Entry) : Option String :=
+  if is2xx status then
+    match now with
+    | none => some "uploadReaderToChunks/chunk-upload-failure-committed"
+    | some e =>
+      if contentOf e = wantedContent q prev then none
+      else some "uploadReaderToChunks/chunk-upload-failure-committed"
+  else if contentOpt now ≠ contentOpt prev then some "write/failed-request-changed-file"
+  else none
 
 end SwV.Spec.C25
